@@ -11,6 +11,7 @@ CONSTANTS
   ClassExprs <- ClassExprsFull
   Repaired = {"KvCompName", "SliceKVRules"}
   Variant = "sharedKeys"
+  NonceCtxs = {"c1"}
   MaxNonces = 1
   MaxSteps = 99
   EmitEdges = FALSE
